@@ -40,12 +40,50 @@ BUDGET = {
     "thorough": {"runs": 8000, "chunk": 16, "wall": 1700, "chunk_timeout": 600, "selfcheck": 64},
 }
 _ALGOS = ["DYNAMOSA", "MOSA", "MIO", "WHOLE_SUITE", "RANDOM"]
+# the six general corpus modules plus the export-shape module (enums, __all__, custom exceptions, SystemExit,
+# Fraction/Decimal/date results, bytes, nested containers, values that flip back, dependency chains)
+_MODULES = ["tiny", "words", "shapes", "floats", "zoo", "plain", "gallery", "gallery", "gallery"]
+
+
+_PHASE_MODULES = ["plain", "shapes", "zoo", "gallery", "words"]
+
+
+def group_key(item):
+    # phases-mode cases keep one instrumented module per process: group them by module
+    if not isinstance(item, int) or item % 2 == 0:
+        return -1
+    return (item // 2) % len(_PHASE_MODULES)
+
+
+def _gen_phases_case(run_seed: int) -> dict:
+    """Post-search phases on suites evolved by a seeded history of real variation operators (no search)."""
+    st = Streams(run_seed)
+    r, k, f = st.get("ops"), st.get("knobs"), st.get("faults")
+    ops = []
+    for _ in range(r.randrange(10, 70)):
+        ops.append({"op": r.choice(["mutate", "mutate", "mutate", "crossover", "clone"]), "a": r.randrange(8), "b": r.randrange(8)})
+    return {
+        "mode": "phases", "run_seed": run_seed, "module": _PHASE_MODULES[(run_seed // 2) % len(_PHASE_MODULES)],
+        "seed": r.randrange(1, 100000), "ntests": r.randrange(2, 6), "ops": ops,
+        "knobs": {"chromosome_length": k.choice([12, 24, 40]), "test_insertion_probability": k.choice([0.1, 0.5]),
+                  "assertions": k.choice(["SIMPLE", "SIMPLE", "MUTATION_ANALYSIS"]),
+                  "assertion_minimization": k.random() < 0.7, "post_process": k.random() < 0.85,
+                  "min_strategy": k.choice(["CASE", "SUITE", "COMBINED", "NONE"]),
+                  "min_direction": k.choice(["FORWARD", "BACKWARD"]), "max_mutants": 12,
+                  "no_xfail": k.random() < 0.3},
+        # fault: which generated assertions survive is decided by mutation analysis in a real run (any subset can);
+        # here a seeded subset is dropped before post-processing
+        "drop_p": f.choice([0.0, 0.0, 0.3, 0.6]),
+        "rename": k.random() < 0.5,
+    }
 
 
 def gen_case(run_seed: int, tier: str) -> dict:
+    if run_seed % 2 == 1:
+        return _gen_phases_case(run_seed)
     st = Streams(run_seed)
     r, k, f = st.get("ops"), st.get("knobs"), st.get("faults")
-    case = gen_base_case(run_seed, r, k, algorithms=_ALGOS)
+    case = gen_base_case(run_seed, r, k, algorithms=_ALGOS, modules=_MODULES)
     kn = case["knobs"]
     kn["iterations"] = k.choice([2, 4])
     kn["assertions"] = k.choice(["SIMPLE", "SIMPLE", "MUTATION_ANALYSIS"])
@@ -54,6 +92,10 @@ def gen_case(run_seed: int, tier: str) -> dict:
     kn["assertion_minimization"] = k.random() < 0.7
     kn["min_strategy"] = k.choice(["CASE", "SUITE", "COMBINED", "NONE"])
     kn["min_direction"] = k.choice(["FORWARD", "BACKWARD"])
+    if k.random() < 0.3:
+        # long test cases: variable names beyond var_9 (one name a prefix of another), deep dependency chains
+        kn["chromosome_length"] = k.choice([30, 40])
+        kn["population"] = 4
     case["timeout_p"] = f.choice([0.0, 0.0, 0.05])
     return case
 
@@ -77,10 +119,17 @@ def _render(assertion) -> str | None:
 
     from pynguin.assertion.assertion_to_ast import assertion_to_cst
 
-    node = assertion_to_cst(assertion)
+    try:
+        node = assertion_to_cst(assertion)
+    except Exception:  # noqa: BLE001 - the monitor must not die of a rendering defect; the exporter will meet it too
+        _unrenderable.append(repr(assertion)[:200])
+        return None
     if node is None:
         return None
     return cst.Module(body=[node]).code.strip()
+
+
+_unrenderable: list = []
 
 
 class AssertionMonitor(Monitor):
@@ -116,6 +165,23 @@ class AssertionMonitor(Monitor):
         self.min_before = []
         for chrom in suite.test_case_chromosomes:
             t = chrom.test_case
+            stmts = t.statements()
+            bound = {s.bound_variable: i for i, s in enumerate(stmts) if s.bound_variable}
+            names = sorted(bound)
+            if any(a != b and b.startswith(a) for a in names for b in names):
+                run.probe("tests_with_a_variable_name_that_prefixes_another")
+            for i, s in enumerate(stmts):
+                b = s.bound_variable
+                if b and s.assertions:
+                    roots = {str(getattr(a, "source", "")).split(".")[0] for a in s.assertions}
+                    if b not in roots and any(r != b and r.startswith(b) for r in roots):
+                        run.probe("statements_asserting_only_on_a_variable_whose_name_extends_their_own")
+            depth = {}
+            for i, s in enumerate(stmts):
+                deps = [bound[v] for v in s.used_variables() if v in bound and bound[v] < i]
+                depth[i] = 1 + max((depth[d] for d in deps), default=0)
+                if s.assertions and depth[i] >= 4:
+                    run.probe("asserted_statements_at_dependency_depth_4plus")
             snap = []
             for s, code in zip(t.statements(), _codes(t)):
                 refs = [r for r in (_render(a) for a in s.assertions if hasattr(a, "source")) if r]
@@ -188,26 +254,246 @@ class AssertionMonitor(Monitor):
             if body is None:
                 continue
             norm = [ln.strip() for ln in body.splitlines()]
+            # in order and with multiplicity: the i-th attached assertion must be written after the (i-1)-th one, so an
+            # assertion that is attached to two statements (the value returned to an earlier one) must be written twice
+            cursor = 0
             for pos, kind, src in lines:
                 first = src.splitlines()[0].strip()
-                if first not in norm:
+                try:
+                    cursor = norm.index(first, cursor) + 1
+                except ValueError:
+                    where = "not in the written function" if first not in norm else \
+                        "written fewer times than attached / not after the assertions of the preceding statements"
                     run.violate(f"export:assertion-missing:{kind}",
-                                f"assertion of statement {pos} in test_{idx} is attached before export but not in the "
-                                f"written function: {src!r}\nfunction body:\n{body}")
+                                f"assertion of statement {pos} in test_{idx} is attached before export but {where}: "
+                                f"{src!r}\nfunction body:\n{body}")
                     return
 
 
+class _PhaseRun:
+    """What AssertionMonitor needs from a run, for the phases mode (no simulated pipeline around it)."""
+
+    def __init__(self, case):
+        from ..simkit import History
+
+        self.case = case
+        self.violation = None
+        self.probes: dict = {}
+        self.hist = History()
+        self.phase = "phases"
+        self.test_file = None
+        self._undo = []
+
+    def violate(self, signature, message, **extra):
+        if self.violation is None:
+            self.violation = {"signature": signature, "message": message, "phase": self.phase, **extra}
+
+    def probe(self, name, n=1):
+        self.probes[name] = self.probes.get(name, 0) + n
+
+    def patch(self, obj, name, new):
+        self._undo.append((obj, name, getattr(obj, name)))
+        setattr(obj, name, new)
+
+    def undo(self):
+        for obj, name, old in reversed(self._undo):
+            setattr(obj, name, old)
+
+
+_phase_env: dict = {}
+
+
+def _get_phase_env(module: str):
+    from ..opsenv import OpsEnv
+
+    env = _phase_env.get(module)
+    if env is None:
+        import shutil
+
+        for old in _phase_env.values():
+            shutil.rmtree(old.out_dir, ignore_errors=True)
+        _phase_env.clear()
+        # generous real timeouts: the corpus terminates, and a spurious timeout under load must not change a digest
+        env = _phase_env[module] = OpsEnv(module, "DYNAMOSA", stopping={"maximum_test_execution_timeout": 120,
+                                                                         "test_execution_time_per_statement": 60})
+    return env
+
+
+def _run_phases(case: dict) -> dict:
+    import hashlib
+    import os
+
+    import pynguin.configuration as config
+    import pynguin.ga.operators.crossover as co
+    import pynguin.ga.testcasechromosome as tcc
+    import pynguin.ga.testsuitechromosome as tsc
+    import pynguin.generator as gen
+    from pynguin.analyses.constants import DynamicConstantProvider
+
+    from .. import simkit
+
+    env = _get_phase_env(case["module"])
+    kn = case["knobs"]
+    gen.set_configuration(env.cfg)  # a pipeline-mode case in the same process installs its own configuration
+    cfg = env.cfg
+    env.apply_knobs({"search_algorithm.chromosome_length": kn["chromosome_length"],
+                     "search_algorithm.test_insertion_probability": kn["test_insertion_probability"]})
+    out = cfg.test_case_output
+    out.assertion_generation = getattr(config.AssertionGenerator, kn["assertions"])
+    out.assertion_minimization = kn["assertion_minimization"]
+    out.post_process = kn["post_process"]
+    out.no_xfail = kn["no_xfail"]
+    out.maximum_mutants = kn["max_mutants"]
+    out.filter_assertions_in_subprocess = False
+    out.minimization.test_case_minimization_strategy = getattr(config.MinimizationStrategy, kn["min_strategy"])
+    out.minimization.test_case_minimization_direction = getattr(config.MinimizationDirection, kn["min_direction"])
+    prov = env.constants
+    while prov is not None:
+        if isinstance(prov, DynamicConstantProvider):
+            for vals in prov._pool._constants.values():  # noqa: SLF001
+                vals.clear()
+        prov = getattr(prov, "_delegate", None)
+    env.reseed(case["seed"])
+    run = _PhaseRun(case)
+    mon = AssertionMonitor()
+    drop_rng = simkit.HRandom(simkit.derive_seed(case["run_seed"], "drop"))
+    dropped = 0
+    try:
+        mon.on_setup(run)
+
+        def new_tc():
+            c = env.chromosome_factory.get_chromosome()
+            return tcc.TestCaseChromosome(test_case=c.test_case, test_factory=env.factory)
+
+        def ok_len(chrom) -> int:
+            """Statements executed before the first exception (a stand-in for the search's selection pressure)."""
+            res = env.executor.execute(chrom.test_case)
+            if res.timeout:
+                return 0
+            return min(res.exceptions) if res.exceptions else chrom.test_case.size()
+
+        cands = [new_tc() for _ in range(24)]
+        cands.sort(key=lambda c_: -ok_len(c_))  # stable: ties keep generation order
+        tests = cands[: case["ntests"]]
+        xo = co.SinglePointRelativeCrossOver()
+        for op in case["ops"]:
+            t = tests[op["a"] % len(tests)]
+            if op["op"] == "mutate":
+                cand = t.clone()
+                cand.mutate()
+                if ok_len(cand) >= ok_len(t):  # keep a variation only if it does not fail earlier than its parent
+                    tests[op["a"] % len(tests)] = cand
+                    run.probe("variations_accepted")
+            elif op["op"] == "crossover":
+                u = tests[op["b"] % len(tests)]
+                if u is not t:
+                    a_, b_ = t.clone(), u.clone()
+                    xo.cross_over(a_, b_)
+                    if ok_len(a_) >= ok_len(t):
+                        tests[op["a"] % len(tests)] = a_
+                        run.probe("variations_accepted")
+            else:
+                tests[op["b"] % len(tests)] = t.clone()
+        if case.get("rename"):
+            # variable names are labels: give every test case a seeded injective renaming (what long evolution with
+            # insertions and crossover tails produces slowly - names out of order, one name a prefix of another)
+            import pynguin.testcase.testcase as tcm
+
+            ren_rng = simkit.HRandom(simkit.derive_seed(case["run_seed"], "rename"))
+            for i, t in enumerate(tests):
+                old_tc = t.test_case
+                names = [s_.bound_variable for s_ in old_tc.statements() if s_.bound_variable]
+                pool = list(range(max(14, 2 * len(names))))
+                ren_rng.shuffle(pool)
+                mapping = {n_: f"var_{pool[j]}" for j, n_ in enumerate(names)}
+                if len(names) >= 2 and ren_rng.random() < 0.6:
+                    # adversarial labels: make one name a proper prefix of another (var_3 / var_31)
+                    short, long_ = ren_rng.sample(names, 2)
+                    k_ = ren_rng.randrange(1, 10)
+                    want = {short: f"var_{k_}", long_: f"var_{k_}{ren_rng.randrange(10)}"}
+                    taken = set(want.values())
+                    free = [f"var_{x}" for x in range(100, 100 + len(names))]
+                    for n_ in names:
+                        if n_ in want:
+                            mapping[n_] = want[n_]
+                        elif mapping[n_] in taken:
+                            mapping[n_] = free.pop()
+                    run.probe("test_cases_with_adversarial_prefix_names")
+                new_tc = tcm.TestCase()
+                for s_ in old_tc.statements():
+                    node = s_.node.visit(tcm._VariableRenamer(mapping))  # noqa: SLF001
+                    new_tc.add_statement(tcm.Statement(node=node, bound_variable=mapping.get(s_.bound_variable),
+                                                       bound_type=s_.bound_type, assertions=[],
+                                                       accessible=s_.accessible, ml_info=s_.ml_info))
+                new_tc._var_counter = 200  # noqa: SLF001
+                tests[i] = tcc.TestCaseChromosome(test_case=new_tc, test_factory=env.factory)
+            run.probe("test_cases_renamed", len(tests))
+        suite = tsc.TestSuiteChromosome()
+        for t in tests:
+            if t.test_case.size() > 0:
+                suite.add_test_case_chromosome(t)
+        for f_ in env.strategy.test_suite_coverage_functions:
+            suite.add_coverage_function(f_)
+        for c in suite.test_case_chromosomes:
+            run.hist.add("tc", hashlib.sha256(c.test_case.to_code().encode()).hexdigest()[:12])
+        run.phase = "assertions"
+        gen._generate_assertions(env.executor, suite, env.cluster)  # noqa: SLF001
+        if case["drop_p"]:
+            for c in suite.test_case_chromosomes:
+                for st_ in c.test_case.statements():
+                    keep = [a for a in st_.assertions if drop_rng.random() >= case["drop_p"]]
+                    dropped += len(st_.assertions) - len(keep)
+                    st_.assertions[:] = keep
+        run.phase = "minimize"
+        mon.before_minimize(run, suite)
+        gen._minimize(suite, env.strategy)  # noqa: SLF001
+        mon.after_minimize(run, suite)
+        run.phase = "export"
+        mon.before_export(run, suite)
+        gen._export_chromosome(suite, subject_properties=env.executor.subject_properties)  # noqa: SLF001
+        tf = os.path.join(env.out_dir, f"test_{case['module']}.py")
+        if os.path.exists(tf):
+            with open(tf, "rb") as fh:
+                run.test_file = fh.read()
+            os.remove(tf)
+        run.hist.add("file", hashlib.sha256(run.test_file or b"").hexdigest()[:16])
+        run.phase = "finish"
+        mon.finish(run)
+    except Exception as e:  # noqa: BLE001
+        import traceback
+
+        tb = traceback.extract_tb(e.__traceback__)
+        where = next((f"{f.filename.rsplit('/', 1)[-1]}:{f.name}" for f in reversed(tb) if "/pynguin/" in f.filename), "?")
+        if where == "?":
+            raise
+        run.violate(f"phases-raised:{type(e).__name__}@{where}", f"{type(e).__name__}: {e}\n{traceback.format_exc()[-1500:]}")
+    finally:
+        run.undo()
+    res = {"violation": run.violation, "digest": run.hist.digest(), "probes": dict(run.probes), "sim_ns": 0,
+           "faults": {"assertion_subset_dropped_before_postprocessing": dropped},
+           "events": list(run.hist.events) if case.get("return_hist") else None}
+    return _finish(case, mon, res)
+
+
 def run_case(case: dict) -> dict:
+    if case.get("mode") == "phases":
+        return _run_phases(case)
     mon = AssertionMonitor()
     run, res = run_pipeline(case, [mon])
+    return _finish(case, mon, res)
+
+
+def _finish(case: dict, mon, res: dict) -> dict:
     res["nontrivial"] = mon.on_unused >= 3
     res["probes"].update(assertions_before_export=mon.total, assertions_on_otherwise_unused_variables=mon.on_unused,
                          remove_unused_variables_calls=mon.ruv_calls,
                          minimize_test_cases_compared=mon.min_matched,
                          minimize_test_cases_removed_or_restored=mon.min_unmatched,
                          minimize_asserted_statements_checked=mon.min_asserted_statements)
-    if case["run_seed"] % 11 == 0:
-        res["sample"] = {"module": case["module"], "algorithm": case["algorithm"], "knobs": case["knobs"],
+    res["probes"]["phases_mode_cases" if case.get("mode") == "phases" else "pipeline_mode_cases"] = 1
+    if case["run_seed"] % 11 in (0, 1):
+        res["sample"] = {"mode": case.get("mode", "pipeline"), "module": case["module"], "algorithm": case.get("algorithm"),
+                         "knobs": case["knobs"], "ops": [o["op"] for o in case.get("ops", [])][:30],
                          "assertions": mon.total, "on_unused": mon.on_unused}
     res["executed_case"] = case
     return res
@@ -216,6 +502,10 @@ def run_case(case: dict) -> dict:
 def minimise(case: dict, signature: str) -> dict:
     import sys
 
+    if case.get("mode") == "phases":
+        from ..driver import default_minimise
+
+        return default_minimise(sys.modules[__name__], case, signature, max_tests=40)
     from .c10 import _min_with
 
     return _min_with(sys.modules[__name__], case, signature)
